@@ -304,7 +304,7 @@ def P(theorems, text, rule, status, **kw):
 
 
 PROPS = {
-    "C01": P(["C01_mapper", "C01_mapper_file", "C01_cache", "C01_index_irrelevant", "C01_unknown_class", "C01_terminator_style", "C01_noise_line"],
+    "C01": P(["C01_mapper", "C01_mapper_file", "C01_cache", "C01_index_irrelevant", "C01_unknown_class", "C01_terminator_style", "C01_noise_line", "C01_block_order_irrelevant"],
              "Theorems: the mapper model returns exactly the declarative specification Sline for every record list "
              "(all classes, methods, lines, files), with or without parameter index; the records - hence the answer - "
              "do not depend on terminator style or unparseable lines. Mapper, mapper-without-index and cache of the "
@@ -359,7 +359,7 @@ PROPS = {
              "Method frames, messages with ': ' or frame-like text, blank lines, Unicode whitespace, CRLF, missing final "
              "newline); non-trivial = output differs from the input text",
              "all clauses proved"),
-    "C08": P(["C08_same_depth", "C08_node_by_node", "C08_typed_print_is_text", "C08_typed_print_is_text_b"],
+    "C08": P(["C08_same_depth", "C08_node_by_node", "C08_typed_print_is_text", "C08_typed_print_is_text_b", "C08_typed_print_is_text_wf"],
              "Theorems: typed remapping preserves the cause-chain depth, maps node by node (exception remapped or kept, "
              "each frame replaced by its remapped frames or kept), and for canonical printed traces printing the typed "
              "result equals the text API's output. Mapper and cache are compared with the model, and the property's own "
@@ -399,7 +399,7 @@ PROPS = {
              "non-trivial = trace with a frame or a cause",
              "all clauses proved; wf_trace is the boolean domain (necessity of each condition shown by counterexamples)"),
     "C02": P(["C02_bytes_roundtrip", "C02_class", "C02_method", "C02_frame_by_line", "C02_frame_by_params",
-              "C02_signature", "C02_index_irrelevant"],
+              "C02_signature", "C02_index_irrelevant", "C02_text_trace", "C02_typed_trace", "C02_domain_of_parsed_bytes"],
              "Theorems (refinement chain): the bytes written from a representable record list parse back to exactly the "
              "written structure; the reader on that structure answers class, method, line and parameter queries exactly "
              "as the specification (sorted sections + exact binary search + string-table injectivity), and so does the "
@@ -409,8 +409,8 @@ PROPS = {
              "representable grammar mappings, token mutations that stay representable, corpus files x the complete query "
              "universe of each (class, method, line, params, text trace, typed trace, signature); non-trivial = "
              "non-empty answer",
-             "all clauses proved for lookups; text/typed trace agreement follows because both implementations "
-             "instantiate one loop with lookups proved equal (that each Rust copy is this loop is the correspondence)"),
+             "all clauses proved, including text and typed trace remapping (one loop, lookups proved equal) and the "
+             "reduction of the domain for parsed bytes; that each Rust copy of the loop is this loop is the correspondence"),
     "C09": P(["C09_struct_wf", "C09_classes_sorted", "C09_ranges_tile", "C09_strings_readable", "C09_length", "C09_decoder_accepts", "C09_self_test_accepts"],
              "Theorems about the written structure (whose bytes read back to exactly it): class entries strictly sorted "
              "by readable obfuscated name; member and by-params ranges tile their sections in class order; every "
